@@ -43,6 +43,7 @@ class Ctx:
         self.nontrivial = False
         self.rejected = 0
         self.excluded = 0
+        self.invalid = False
 
     def fail(self, signature: str, detail: str = "") -> None:
         self.violations.append((signature, str(detail)[:2000]))
@@ -113,6 +114,11 @@ def exec_case(facet: Facet, case: Any) -> Ctx:
         ctx.fail(v.signature, v.detail)
     except Unsupported:
         ctx.rejected += 1
+    except InvalidCase:
+        # outside the facet's input domain: not executed, counted (a generator that does this often shows up in the evidence)
+        ctx.violations.clear()
+        ctx.nontrivial = False
+        ctx.invalid = True
     return ctx
 
 
@@ -150,6 +156,9 @@ def run_shard(args: tuple) -> dict:
             st["budget_exhausted"] = True
             return
         ctx = exec_case(facet, case)
+        if ctx.invalid:
+            st["invalid"] = st.get("invalid", 0) + 1
+            return
         st["evaluations"] += 1
         st["rejected"] += ctx.rejected
         st["excluded"] += ctx.excluded
@@ -443,7 +452,7 @@ def run_check(prop_id: str, tier: str) -> int:
         classes.update(r["classes"])
         known_hits.update(r["known_hits"])
         rejected += r["rejected"]
-        excluded += r["excluded"]
+        excluded += r["excluded"] + r.get("invalid", 0)
         budget_exhausted |= r["budget_exhausted"]
         pf = per_facet.setdefault(r["facet"], {"evaluations": 0, "nontrivial": 0, "wall_s": 0.0})
         pf["evaluations"] += r["evaluations"]
@@ -459,6 +468,9 @@ def run_check(prop_id: str, tier: str) -> int:
             if key not in unknown or size < unknown[key][0]:
                 unknown[key] = (size, case, detail)
 
+    if os.environ.get("VERIF_DUMP_UNKNOWN"):  # triage aid: every unknown signature with its (unshrunk) smallest case
+        with open(os.environ["VERIF_DUMP_UNKNOWN"], "w") as f:
+            json.dump([{"facet": k[0], "signature": k[1], "detail": v[2], "case": v[1]} for k, v in sorted(unknown.items())], f, indent=1, default=str)
     # 4. shrink + report unknown violations
     shrink_budget = 25.0 if tier == "quick" else 120.0
     shrink_total = 90.0 if tier == "quick" else 600.0
